@@ -301,11 +301,13 @@ def handler_frame(col, gcode, p, where):
             name = '%s.%s' % (S_OID, e[2])
         else:
             continue
-        for v in live_alts(p.st, e[3]):
+        for acc, v in guarded_alts(p.st, e[3]):
             if isinstance(v, Num) and v.p == Poly.sym(name):
                 continue                    # re-assigned the value it had
-            if e[2] == 'absoluteMode' and v in (True, False) and p.st.dom.get(('fld', e[4], 'absoluteMode')) == frozenset([v]):
-                continue
+            if e[2] == 'absoluteMode' and v in (True, False):
+                key = ('fld', e[4], 'absoluteMode')
+                if acc.get(key, p.st.dom.get(key)) == frozenset([v]):
+                    continue                # the flag re-assigned to itself (decided on the path or by this alternative)
             col.report('C08.R3', where, '%s changes %s' % (gcode, name.replace(S_OID + '.', '')),
                        '%s must leave %s alone (it becomes %r): the firmware does not change it, so the tracked frame and the '
                        'printer drift apart (a generated G92 E / travel is then computed from the wrong value)'
